@@ -160,7 +160,8 @@ def parse_failing(out):
         raise RuntimeError("coq evaluation failed:\n" + txt[-3000:])
     body = m.group(1).replace('%nat', '')
     res = {}
-    for mm in re.finditer(r"\((\d+)\s*,\s*\[([^\]]*)\]\)", body):
+    body = re.sub(r"\s+", " ", body)
+    for mm in re.finditer(r"\(\s*(\d+)\s*,\s*\[([^\]]*)\]\s*\)", body):
         res[int(mm.group(1))] = [int(c) for c in re.findall(r"\d+", mm.group(2))]
     return res
 
